@@ -513,6 +513,9 @@ def clip(
         a = maximum(a_min, a, out=out, constant=constant)
     elif a_max is not None:
         a = minimum(a_max, a, out=out, constant=constant)
+    else:
+        # nothing to clip against: like NumPy, which evaluates `positive(a, out=out)`
+        a = mg.positive(a, out=out, constant=constant)
     return mg.astensor(a)
 
 
